@@ -7,12 +7,12 @@ def check(ctx):
     ctx.explanation = ("the C01 program space observed with set_trickery_enabled(False): the reported list must be an ordered "
                        "super-sequence of the truly active managers (right obj and is_async), extras only the manager being "
                        "entered/exited, exactly one is_exiting entry iff an exit call is in progress")
-    m7.explore(ctx, "referents", 150, 3000, seed_off=6)
+    m7.explore(ctx, "referents", 150, 3000, seed_off=6, quick_stride=2)
     # faults inside the trickery analysis: must only warn and fall back to a sound result
     ctx.explanation += ("; at every suspension of every behaviour an exception is injected into each internal step of the "
                         "trickery analysis (analyze_with_blocks, inspect_frame, currently_exiting_context): the call must emit "
                         "exactly InspectionWarning(s), not raise, and its result must obey the same relaxed rule")
-    m7.explore(ctx, "trickfault", 40, 1500, seed_off=7, quick_stride=3)
+    m7.explore(ctx, "trickfault", 40, 1500, seed_off=7, quick_stride=5)
 
     # the mode switch: Trickery.tla, every sequence of 5 set / extract operations on two threads, replayed on real threads
     import json
